@@ -19,9 +19,9 @@ func init() { checks["C04"] = c04{} }
 func (c04) Level() string { return "exploration" }
 func (c04) NumCases(tier string) int {
 	if tier == "thorough" {
-		return 6000
+		return 8000
 	}
-	return 320
+	return 480
 }
 func c04Schedules(tier string) int {
 	if tier == "thorough" {
@@ -521,6 +521,9 @@ func c04Violation(c *Ctx, cs *C04Case, f c04Fail, idx int, alone *c04Alone) *Vio
 	orig := *cs
 	orig.Trace, orig.Policy = f.trace, f.policy
 	ob, _ := json.Marshal(orig)
+	if !c.mayMinimise(f.sig) {
+		return &Violation{Property: c.Prop, Clause: f.clause, Detail: f.detail, Signature: f.sig, Seed: c.Seed, Index: idx, Case: ob}
+	}
 	deadline := time.Now().Add(25 * time.Second)
 	cur := orig
 	test := func(cand *C04Case) (c04Fail, bool) {
